@@ -128,6 +128,13 @@ def match_finding(finding: dict, v: dict) -> bool:
     case = dict(v.get("case", {}))
     case["what"] = v.get("what")
     for k, want in m.items():
+        if k == "kind_has":
+            # the record's kind is a comma-separated set; the finding names the member(s) it explains
+            kinds = set(str(case.get("kind", "")).split(","))
+            wants = want if isinstance(want, list) else [want]
+            if not (kinds & set(wants)):
+                return False
+            continue
         have = case.get(k)
         if isinstance(want, list):
             if have not in want:
